@@ -31,7 +31,7 @@ Taus(N) == [i \in 1..N |-> RFrac(Pseudo(i, 3, 1), 4)]
 Cfg ==
     LET s == pt[1]  N == pt[2]  D == pt[3]
         tm == IF pt[5] = "quad" THEN [kind |-> "quad"] ELSE [kind |-> "sq", scale |-> "3/4"]
-        sm == IF pt[6] = "id" THEN [kind |-> "id"] ELSE [kind |-> "lift", gain |-> "1/4"]
+        sm == IF pt[6] = "id" THEN [kind |-> "id"] ELSE [kind |-> "lift", gain |-> "1/4", pin |-> -1]
         base == [s |-> s, D |-> D, t0 |-> "1/2", flags |-> FlagsOf(pt[4]), rho |-> pt[8], K |-> pt[7], tm |-> tm, sm |-> sm,
                  T |-> [i \in 1..N |-> TMapVal(tm, Taus(N)[i])],
                  P |-> [j \in 1..(N + 1) |-> [c \in 1..D |-> RFrac(Pseudo(j, c, 2), 2)]],
@@ -39,7 +39,7 @@ Cfg ==
                  BE |-> [d \in 1..(s - 1) |-> [c \in 1..D |-> RFrac(Pseudo(d + 2, c, 7), 4)]]]
         \* with the lift map the reference points must lie in the range of the map (as a user's reference would)
         fixP == IF sm.kind = "id" THEN base.P
-                ELSE [j \in 1..(N + 1) |-> SMapVal(base, SubSeq(base.P[j], 1, LiftDof(D, j - 1)), j - 1)]
+                ELSE [j \in 1..(N + 1) |-> SMapVal(base, SubSeq(base.P[j], 1, LiftDof(base, j - 1)), j - 1)]
     IN Force([base EXCEPT !.P = fixP])
 Cp == [ta |-> "1/2", tb |-> "1/4", tc |-> "-1/8", ww |-> "1/4", wc0 |-> "1/2", ap |-> "1/8", av |-> "1/4", aa |-> "1/16", aj |-> "1/32",
        as |-> "1/64", beta |-> "-1/8", gamma |-> "1/4", delta |-> "1/8", eps |-> "1/16", lie_which |-> 0, lie_i |-> 0, lie_c |-> 0, lie |-> "0"]
